@@ -17,6 +17,7 @@ VERIF = os.path.dirname(os.path.dirname(os.path.abspath(__file__)))
 
 HARNESS_MODULES = {
     'C11': ['c11_prims'],
+    'C12': ['c12_vectors'],
     'C17': ['c17_version'],
 }
 
